@@ -149,6 +149,11 @@ def make_scheduler(kind: str, name: str, p2e, seed: int, mode="min"):
         cs = make_space(name, maxres=3)
         return cs, PopulationBasedTraining(cs, resource_attr=RES, max_t=3, population_size=2, perturbation_interval=1,
                                            search_options={"debug_log": False}, **common)
+    if kind == "median":
+        from syne_tune.optimizer.schedulers import MedianStoppingRule
+        cs = make_space(name, maxres=3)
+        base = FIFOScheduler(cs, searcher="random", search_options={"debug_log": False}, **common)
+        return cs, MedianStoppingRule(base, resource_attr=RES, grace_time=1, grace_population=2)
     if kind == "regevo":
         from syne_tune.optimizer.schedulers.searchers.regularized_evolution import RegularizedEvolution
         cs = make_space(name)
@@ -158,16 +163,17 @@ def make_scheduler(kind: str, name: str, p2e, seed: int, mode="min"):
     raise ValueError(kind)
 
 
-NOREPEAT = {"hbdeep_bayesopt": True, "fifo_random_dup": False, "fifo_random": True, "fifo_grid": True, "fifo_bayesopt": True, "hb_random": True, "hb_random_promo": True,
+NOREPEAT = {"median": True, "hbdeep_bayesopt": True, "fifo_random_dup": False, "fifo_random": True, "fifo_grid": True, "fifo_bayesopt": True, "hb_random": True, "hb_random_promo": True,
             "hb_bayesopt": True, "hb_hypertune": True, "synchb": True, "dehb": False, "pbt": False, "regevo": False}
 
 
 class Episode:
-    def __init__(self, kind, name, p2e_idx, seed, sched=None, cs=None):
+    def __init__(self, kind, name, p2e_idx, seed, sched=None, cs=None, mode="min"):
         self.kind, self.name, self.p2e_idx, self.seed = kind, name, p2e_idx, seed
+        self.sign = 1.0 if mode == "min" else -1.0       # C15: the "max" twin sees the negated metric
         if sched is None:
             p2e = None if p2e_idx is None else p2e_configs(name, p2e_idx)
-            cs, sched = make_scheduler(kind, name, p2e, seed)
+            cs, sched = make_scheduler(kind, name, p2e, seed, mode=mode)
         self.cs, self.sched = cs, sched
         self.ev: List[dict] = []
         self.trials: Dict[int, Trial] = {}
@@ -227,7 +233,7 @@ class Episode:
             return
         self.level[t] += 1
         r = self.level[t]
-        val = float((5 * t + 3 * r) % 7) if v is None else float(v)
+        val = self.sign * (float((5 * t + 3 * r) % 7 + 0.125 * ((3 * t + r) % 5)) if v is None else float(v))
         try:
             d = self.sched.on_trial_result(self.trials[t], {METRIC: val, RES: r})
         except Exception as exc:
@@ -257,7 +263,7 @@ class Episode:
         self.state[t] = "completed"
         r = self.level[t]
         try:
-            self.sched.on_trial_complete(self.trials[t], {METRIC: float((5 * t + 3 * r) % 7), RES: r})
+            self.sched.on_trial_complete(self.trials[t], {METRIC: self.sign * float((5 * t + 3 * r) % 7 + 0.125 * ((3 * t + r) % 5)), RES: r})
         except Exception as exc:
             return self._crash("on_trial_complete", exc)
         self.ev.append({"a": "Complete", "t": t})
